@@ -77,13 +77,16 @@ def _family(name, order):
 
 
 def _blocks():
-    """Four blocks: full order, LHAPDF order (t, tbar, photon absent), no data, odd order."""
+    """Six blocks: full order, LHAPDF order (t, tbar, photon absent), no data, odd order, all 14 PIDs in LHAPDF order and shuffled."""
     import numpy as np
     from eko import basis_rotation as br
 
     full = [int(p) for p in br.flavor_basis_pids]
     out = []
-    for pids in (full, LHAPDF_ORDER, None, ODD_ORDER):
+    # complete blocks in another order than eko's own (all 14 PIDs: the LHAPDF order and a shuffled one)
+    full_lhapdf = [-6, -5, -4, -3, -2, -1, 1, 2, 3, 4, 5, 6, 21, 22]
+    full_shuffled = [3, -1, 22, 5, -6, 21, 2, -4, 1, 6, -3, 4, -5, -2]
+    for pids in (full, LHAPDF_ORDER, None, ODD_ORDER, full_lhapdf, full_shuffled):
         if pids is None:
             out.append({"mu2grid": np.array([1.0, 2.0]), "xgrid": np.array([0.1, 1.0]), "pids": np.array(LHAPDF_ORDER), "data": np.array([])})
             continue
